@@ -48,8 +48,8 @@ def eRecovery := "client/24"
 def eInvalidHeight := "client/26"
 def eClientNotActive := "client/29"
 def eRouteNotFound := "client/32"
-def eCpInvalid := "client/34"
-def eCpNotFound := "client/35"
+def eCpInvalid := "clientv2/34"
+def eCpNotFound := "clientv2/35"
 def eUnauthorized := "ibc/2"
 def eInvalidRequest := "ibc/8"
 def eNotFound := "ibc/16"
@@ -720,25 +720,27 @@ def sendPacketV2 (s : ChainState) (env : Env) (src : Id) (tt : Nat) (payloads : 
   .ok ({ s with nextSend := s.nextSend.set src (seq + 1),
                 commitV2 := s.commitV2.set (src, seq) ⟨cpId, tt, payloads⟩ }, seq)
 
-/-- callbacks of the sending / acknowledging / timing-out side: one per payload, in order, on ctx;
-    the first error fails the tx; an unknown port makes `Router.Route` panic -/
-def runCallbacks (s : ChainState) (env : Env) (mk : Nat → Event) (port : Payload → Id) :
-    Nat → List Payload → List AppV2 → Except String ChainState
-  | _, [], _ => .ok s
-  | i, pd :: pds, apps =>
+/-- callbacks of the sending / acknowledging / timing-out side: one per payload, in order, on ctx
+    (they only touch the application store); the first error fails the tx; an unknown port makes
+    `Router.Route` panic; `acks[i]` with `i ≥ limit` panics (acknowledgement callbacks only) -/
+def runCallbacks (tag : String) (port : Payload → Id) (limit : Nat) :
+    FMap String String → Nat → List Payload → List AppV2 → Except String (FMap String String)
+  | app, _, [], _ => .ok app
+  | app, i, pd :: pds, apps =>
     if !routeV2 (port pd) then .error ePanic else
+    if i ≥ limit then .error ePanic else
     let a := apps.headD ⟨0, false, .ok, ""⟩
-    let s1 := (s.logAdd (mk i)).appWrite ("p" ++ toString i) env.tag a.w
+    let app1 := appWrites app ("p" ++ toString i) tag a.w
     if a.cbErr then .error eApp else
-    runCallbacks s1 env mk port (i + 1) pds apps.tail
+    runCallbacks tag port limit app1 (i + 1) pds apps.tail
 
 def msgSendPacketV2 (s : ChainState) (env : Env) (src : Id) (tt : Nat) (payloads : List Payload) (apps : List AppV2) : ChainState × Out :=
   match sendPacketV2 s env src tt payloads with
   | .error e => (s, .err e)
   | .ok (ctx, seq) =>
-    match runCallbacks ctx env (fun i => .send2 src seq i) (·.sp) 0 payloads apps with
+    match runCallbacks env.tag (·.sp) payloads.length ctx.app 0 payloads apps with
     | .error e => if e = ePanic then (s, .panic) else (s, .err e)
-    | .ok ctx => (ctx, .ok (toString seq))
+    | .ok app => (({ ctx with app := app }).logAdd (.send2 src seq payloads.length), .ok (toString seq))
 
 /-- `recvPacket` -/
 def recvPacketV2 (s : ChainState) (env : Env) (p : PacketV2) : Except String ChainState :=
@@ -771,31 +773,33 @@ def writeAckV2 (s : ChainState) (p : PacketV2) (acks : List Hex) : Except String
   .ok { s with ackV2 := s.ackV2.set (p.dst, p.seq) acks }
 
 /-- result of the per-payload receive callbacks (the `for` loop of `RecvPacket`): the callbacks run
-    on the (re-used) cache context `c`; returns the child, the collected acks, the flags -/
+    on the (re-used) cache context and only touch the application store; `ran` = number of
+    callbacks executed -/
 structure RecvLoop where
-  child : ChainState
+  app : FMap String String
   acks : List Hex
   isAsync : Bool
   isSuccess : Bool
+  ran : Nat
 
-def recvLoop (env : Env) (dst : Id) (seq : Nat) (npayloads : Nat) :
+def recvLoop (tag : String) (npayloads : Nat) :
     Nat → List Payload → List AppV2 → RecvLoop → Except String RecvLoop
   | _, [], _, st => .ok st
   | i, pd :: pds, apps, st =>
     if !routeV2 pd.dp then .error ePanic else
     let a := apps.headD ⟨0, false, .ok, ""⟩
-    let c := (st.child.logAdd (.recv2 dst seq i)).appWrite ("p" ++ toString i) env.tag a.w
+    let app1 := appWrites st.app ("p" ++ toString i) tag a.w
     match a.res with
     | .fail =>
       -- break: later payloads are not executed
-      .ok { child := c, acks := [sentinelAck], isAsync := st.isAsync, isSuccess := false }
+      .ok { app := app1, acks := [sentinelAck], isAsync := st.isAsync, isSuccess := false, ran := i + 1 }
     | r =>
       if a.ack = sentinelAck then .error e2InvalidAck else
-      let st' : RecvLoop := { child := c, acks := st.acks ++ [a.ack], isAsync := st.isAsync, isSuccess := st.isSuccess }
+      let st' : RecvLoop := { app := app1, acks := st.acks ++ [a.ack], isAsync := st.isAsync, isSuccess := st.isSuccess, ran := i + 1 }
       if r = .async then
         if npayloads > 1 then .error e2InvalidPacket
-        else recvLoop env dst seq npayloads (i + 1) pds apps.tail { st' with isAsync := true }
-      else recvLoop env dst seq npayloads (i + 1) pds apps.tail st'
+        else recvLoop tag npayloads (i + 1) pds apps.tail { st' with isAsync := true }
+      else recvLoop tag npayloads (i + 1) pds apps.tail st'
 
 /-- `Keeper.RecvPacket` (v2 msg server) -/
 def msgRecvPacketV2 (s : ChainState) (env : Env) (p : PacketV2) (apps : List AppV2) : ChainState × Out :=
@@ -805,11 +809,11 @@ def msgRecvPacketV2 (s : ChainState) (env : Env) (p : PacketV2) (apps : List App
   | .ok child =>
   let ctx := child                                         -- writeFn()
   -- the callbacks run on the same cache context, which is now an empty layer above ctx
-  match recvLoop env p.dst p.seq p.payloads.length 0 p.payloads apps ⟨ctx, [], false, true⟩ with
+  match recvLoop env.tag p.payloads.length 0 p.payloads apps ⟨ctx.app, [], false, true, 0⟩ with
   | .error e => if e = ePanic then (s, .panic) else (s, .err e)
   | .ok r =>
-  -- callbacks did run in this (committed) tx: keep their log entries, keep their writes only if all succeeded
-  let ctx := if r.isSuccess then r.child else { ctx with log := r.child.log }
+  -- the callbacks did run in this (committed) tx; their writes persist only if all succeeded
+  let ctx := (if r.isSuccess then { ctx with app := r.app } else ctx).logAdd (.recv2 p.dst p.seq r.ran)
   if !r.isAsync then
     if ackSuccessV2 r.acks ≠ r.isSuccess then (s, .panic) else
     done s (writeAckV2 ctx p r.acks)
@@ -849,13 +853,12 @@ def msgAcknowledgementV2 (s : ChainState) (env : Env) (p : PacketV2) (acks : Lis
   | a0 :: _ =>
   let recvSuccess := a0 ≠ sentinelAck
   -- with recvSuccess the i-th payload gets acks[i] (index out of range panics)
-  if recvSuccess && acks.length < p.payloads.length then
-    -- callbacks up to the missing index run, then the tx panics: reverted
-    (s, .panic)
-  else
-  match runCallbacks ctx env (fun i => .ack2 p.src p.seq i (if recvSuccess then acks.getD i "" else sentinelAck)) (·.sp) 0 p.payloads apps with
+  let limit := if recvSuccess then acks.length else p.payloads.length
+  match runCallbacks env.tag (·.sp) limit ctx.app 0 p.payloads apps with
   | .error e => if e = ePanic then (s, .panic) else (s, .err e)
-  | .ok ctx => (ctx, .ok "")
+  | .ok app =>
+    let delivered := if recvSuccess then acks.take p.payloads.length else p.payloads.map (fun _ => sentinelAck)
+    (({ ctx with app := app }).logAdd (.ack2 p.src p.seq delivered), .ok "")
 
 /-- `timeoutPacket` -/
 def timeoutPacketV2 (s : ChainState) (env : Env) (p : PacketV2) : Except String ChainState :=
@@ -881,9 +884,9 @@ def msgTimeoutV2 (s : ChainState) (env : Env) (p : PacketV2) (apps : List AppV2)
   match timeoutPacketV2 s env p with
   | .error e => if e = e2NoOp then (s, .noop) else (s, .err e)
   | .ok ctx =>
-  match runCallbacks ctx env (fun i => .timeout2 p.src p.seq i) (·.sp) 0 p.payloads apps with
+  match runCallbacks env.tag (·.sp) p.payloads.length ctx.app 0 p.payloads apps with
   | .error e => if e = ePanic then (s, .panic) else (s, .err e)
-  | .ok ctx => (ctx, .ok "")
+  | .ok app => (({ ctx with app := app }).logAdd (.timeout2 p.src p.seq p.payloads.length), .ok "")
 
 /-! ## clients and authorisation (msg_server.go) -/
 
